@@ -258,12 +258,26 @@ theorem lex_star_end (f : Nat) (acc : List RTok) :
 
 /-! ### raw tokens of a tree, a negative number being two tokens -/
 
+/-- a text with a leading `-` is two tokens: the minus operator and the rest -/
+def splitMinus (mk : String → RTok) (txt : List Char) : List RTok :=
+  match txt with
+  | '-' :: t => [.op .TokenMinus, mk (String.ofList t)]
+  | t => [mk (String.ofList t)]
+
+theorem splitMinus_minus (mk : String → RTok) (t : List Char) :
+    splitMinus mk ('-' :: t) = [.op .TokenMinus, mk (String.ofList t)] := rfl
+
+theorem splitMinus_other (mk : String → RTok) (c : Char) (t : List Char) (hc : c ≠ '-') :
+    splitMinus mk (c :: t) = [mk (String.ofList (c :: t))] := by
+  unfold splitMinus
+  split
+  · rename_i heq; simp at heq; exact absurd heq.1 hc
+  · rfl
+
 def atomRaws (a : Atom) : List RTok :=
   match a with
-  | .num n =>
-    match atomText (.num n) with
-    | '-' :: t => [.op .TokenMinus, .number (String.ofList t)]
-    | t => [.number (String.ofList t)]
+  | .num n => splitMinus .number (atomText (.num n))
+  | .dur ns lit => splitMinus .duration (atomText (.dur ns lit))
   | a => [atomRaw a]
 
 mutual
